@@ -57,16 +57,19 @@ def runParams {σ : Type} (m : TraitMeta) (specs : List (PSpec σ)) : List Param
 
 /-! ### The attribute scan -/
 
-/-- `build_from_attributes`: all `#[educe(...)]` list attributes of one position are scanned; metas
+/-- `traits` is the set of educed traits; every handler uses it only through membership
+    (`traits.contains(..)` in the code), so the model carries the membership test itself.
+
+    `build_from_attributes`: all `#[educe(...)]` list attributes of one position are scanned; metas
     of other traits are only validated; `mine` selects this builder's metas (incl. synonyms). -/
-def scanMetas {α : Type} (F : Features) (traits : List TraitId) (mine : TraitId → Bool)
+def scanMetas {α : Type} (F : Features) (traits : TraitId → Bool) (mine : TraitId → Bool)
     (build : TraitMeta → Res α) : List TraitMeta → Option α → Res (Option α)
   | [], out => .ok out
   | m :: ms, out =>
     match traitOf F m with
     | none => .diag .unsupportedTrait
     | some t =>
-      if !traits.contains t then identOrPanic m .traitNotUsed
+      if !traits t then identOrPanic m .traitNotUsed
       else if mine t then
         match out with
         | some _ => identOrPanic m .reuseTrait
@@ -77,7 +80,7 @@ def scanMetas {α : Type} (F : Features) (traits : List TraitId) (mine : TraitId
           | .panic s => .panic s
       else scanMetas F traits mine build ms out
 
-def scanAttrs {α : Type} (F : Features) (traits : List TraitId) (mine : TraitId → Bool)
+def scanAttrs {α : Type} (F : Features) (traits : TraitId → Bool) (mine : TraitId → Bool)
     (build : TraitMeta → Res α) : List Attribute → Option α → Res (Option α)
   | [], out => .ok out
   | a :: as, out =>
@@ -91,7 +94,7 @@ def scanAttrs {α : Type} (F : Features) (traits : List TraitId) (mine : TraitId
         | .panic s => .panic s
     else scanAttrs F traits mine build as out
 
-def fromAttrs {α : Type} (F : Features) (traits : List TraitId) (mine : TraitId → Bool)
+def fromAttrs {α : Type} (F : Features) (traits : TraitId → Bool) (mine : TraitId → Bool)
     (build : TraitMeta → Res α) (dflt : α) (attrs : List Attribute) : Res α :=
   match scanAttrs F traits mine build attrs none with
   | .ok (some a) => .ok a
@@ -100,16 +103,16 @@ def fromAttrs {α : Type} (F : Features) (traits : List TraitId) (mine : TraitId
   | .panic s => .panic s
 
 /-- Into: all `Into(..)` metas of one position are collected first (no repeat check). -/
-def collectMetas (F : Features) (traits : List TraitId) (t0 : TraitId) : List TraitMeta → List TraitMeta → Res (List TraitMeta)
+def collectMetas (F : Features) (traits : TraitId → Bool) (t0 : TraitId) : List TraitMeta → List TraitMeta → Res (List TraitMeta)
   | [], acc => .ok acc
   | m :: ms, acc =>
     match traitOf F m with
     | none => .diag .unsupportedTrait
     | some t =>
-      if !traits.contains t then identOrPanic m .traitNotUsed
+      if !traits t then identOrPanic m .traitNotUsed
       else collectMetas F traits t0 ms (if t == t0 then acc ++ [m] else acc)
 
-def collectAttrs (F : Features) (traits : List TraitId) (t0 : TraitId) : List Attribute → List TraitMeta → Res (List TraitMeta)
+def collectAttrs (F : Features) (traits : TraitId → Bool) (t0 : TraitId) : List Attribute → List TraitMeta → Res (List TraitMeta)
   | [], acc => .ok acc
   | a :: as, acc =>
     if a.isEduce && a.isList then
